@@ -60,7 +60,24 @@ def maze_spec(R: Draw) -> dict:
     return {"nodes": {k: nodes[k] for k in order}, "marks": {}}
 
 
-def _maze_schema(R: Draw):  # noqa: ANN202
+def fill_maze_spec(R: Draw) -> dict:
+    """Backtracking maze for fill_before: a host whose expression is a random tree of choices and sequences over a few
+    leaf types, so that an alternative listed first can start with generatable nodes and still dead-end for the content
+    that follows (`a b+ | c d` before [d], `(a b | c) d`, ...)."""
+    from ..gen import exprs
+
+    names = ["x", "y", "z", "u"][: R.int(3, 4)]
+    if R.bool(0.3):
+        names.append("req")
+    ast = exprs.random_ast(R, names, R.int(3, 7), ["?", "*", "+", "{1,2}"])
+    nodes: dict = {"doc": {"content": "host+"}, "host": {"content": exprs.render(ast)}}
+    for n in names:
+        nodes[n] = {"attrs": {"k": {}}} if n == "req" else {}
+    nodes["text"] = {}
+    return {"nodes": nodes, "marks": {}}
+
+
+def _maze_schema(R: Draw, make=None):  # noqa: ANN001, ANN202
     import copy as _copy
 
     from prosemirror.model import Schema
@@ -68,7 +85,7 @@ def _maze_schema(R: Draw):  # noqa: ANN202
     from ..ref.schema import RefSchema, SpecError
 
     for _ in range(6):
-        spec = maze_spec(R)
+        spec = (make or maze_spec)(R)
         try:
             rs = RefSchema(_copy.deepcopy(spec))
         except SpecError:
@@ -86,14 +103,18 @@ def _maze_schema(R: Draw):  # noqa: ANN202
 
 def generate(R: Draw, tier: str) -> dict:
     sref = None
-    if R.bool(0.4):
+    kind = R.weighted([("maze", 3), ("fill-maze", 3), ("other", 4)])
+    if kind == "maze":
         sref = _maze_schema(R)
+    elif kind == "fill-maze":
+        sref = _maze_schema(R, fill_maze_spec)
     if sref is None:
         sref = schemas.pick_schema(R, ZOO_NAMES, p_random=0.6)
+        kind = "other"
     lib, rs = schemas.get(sref)
     g = docgen(rs)
     hosts = [t for t in rs.node_names if not rs.leaf[t]]
-    host = R.choice(hosts)
+    host = "host" if kind == "fill-maze" else R.choice(hosts)
     # `after`: either a walk from some state of the host (a real continuation) or arbitrary types
     after = []
     if R.bool(0.6):
